@@ -1085,6 +1085,17 @@ theorem inv_svcSync {inst c} {s : St} (h : Inv inst c s)
 /-! ### All operations -/
 
 /-- Inside the domain every operation preserves the invariant. -/
+theorem inv_svcDeleteCut {inst c} {s : St} (h : Inv inst c s) (o : Own) : Inv inst c (svcDeleteCut s o).1 := by
+  unfold svcDeleteCut
+  split
+  · refine Inv.shrink h (fun e he => he) (fun o' ho' => ho') (fun p hp => (List.mem_filter.mp hp).1) ?_ ?_
+    · intro e he a ha
+      have hm : e ∈ s.devs := (List.mem_filter.mp he).1
+      exact ⟨e.2, hm, ha⟩
+    · intro k o' hin hnot
+      exact absurd hin hnot
+  · exact inv_svcDelete h o true (Or.inl rfl)
+
 theorem inv_step {inst c} (hv : c.valid) {s : St} (h : Inv inst c s) (op : Op)
     (hok : opOk inst s op = true) : Inv inst c (step c s op).1 := by
   cases op with
@@ -1117,6 +1128,7 @@ theorem inv_step {inst c} (hv : c.valid) {s : St} (h : Inv inst c s) (op : Op)
   | svcRestart => exact inv_svcRestart h
   | svcCreate o env => exact inv_svcCreate h o env (by simpa [opOk, ownerOk] using hok)
   | svcDelete o => exact inv_svcDelete h o true (Or.inl rfl)
+  | svcDeleteCut o => exact inv_svcDeleteCut h o
   | svcSync => exact inv_svcSync h (by simpa [opOk] using hok)
 
 theorem inv_run {inst c} (hv : c.valid) : ∀ (ops : List Op) (s : St), Inv inst c s →
@@ -1228,6 +1240,13 @@ theorem svcCreate_links (s : St) (o : Own) (env : Option Bool) :
     · rw [e1.1]; left; rfl
 
 /-- **Every** operation (inside the domain or not) keeps names unique. -/
+theorem svcDeleteCut_links_sub (s : St) (o : Own) :
+    ∀ e ∈ (svcDeleteCut s o).1.links, e ∈ s.links := by
+  unfold svcDeleteCut
+  split
+  · intro e he; exact he
+  · exact svcDelete_links_sub s o true
+
 theorem uniq_step (c : Cidr) {s : St} (h : Uniq s.links) (op : Op) : Uniq (step c s op).1.links := by
   cases op with
   | spawn o => simp only [step, spawn]; split <;> exact h
@@ -1275,6 +1294,7 @@ theorem uniq_step (c : Cidr) {s : St} (h : Uniq s.links) (op : Op) : Uniq (step 
     · rw [e]; exact h
     · rw [e1]; exact h.append e2 _
   | svcDelete o => exact uniq_of_sub h (svcDelete_links_sub s o true)
+  | svcDeleteCut o => exact uniq_of_sub h (svcDeleteCut_links_sub s o)
   | svcSync => exact uniq_of_sub h (svcSync_links_sub s)
 
 theorem uniq_run (c : Cidr) : ∀ (ops : List Op) (s : St), Uniq s.links → Uniq (run c s ops).links := by
@@ -1292,6 +1312,7 @@ def releaser : Op → Option Own
   | .epUnlink _ (some o) => some o
   | .epUnlinkAll _ _ _ (some o) _ => some o
   | .svcDelete o => some o
+  | .svcDeleteCut o => some o
   | _ => none
 
 theorem releaseOp_removed {s : St} (hu : Uniq s.links) (k : Key) (o : Own) :
